@@ -6,7 +6,7 @@ import ast
 import z3
 
 from .repo import Unsupported
-from .values import (V, Num, Bool, Str, NoneV, NONE, Opt, Tup, Lst, Dct, SetV, SetL, DctL, NDArr, Obj, Opq, Fn, ExcV, ModV, member, distinct_list,
+from .values import (V, Num, Bool, Str, NoneV, NONE, Opt, Tup, Lst, Dct, SetV, SetL, DctL, NDArr, Ref, Obj, Opq, Fn, ExcV, ModV, member, distinct_list,
                      truth, is_none, strip_opt, ite, eq, num_pair, fresh_int, fresh_real, fresh_name)
 from . import symex
 
@@ -118,7 +118,7 @@ def apply(ex, f: V, args, kw, p, node):
         if d in ex.handlers:
             ex.trace["handlers"].add(d)
             return ex.handlers[d](ex, p, args, kw, node)
-        if ex.repo.find_method(d, "__init__") is not None:
+        if ex.repo.find_method(d, "__init__") is not None or not _is_model(ex, d):
             return instantiate(ex, d, args, kw, p, node)
         g = ex.handlers.get("construct:*")
         if g is not None:
@@ -161,7 +161,11 @@ def apply(ex, f: V, args, kw, p, node):
         if qual in ex.handlers:
             ex.trace["handlers"].add(qual)
             return ex.handlers[qual](ex, p, [selfv] + args, kw, node)
-        return ex.call_repo_function(fm, fnode, [selfv] + args, kw, p, qual=qual)
+        return ex.call_repo_function(fm, fnode, [selfv] + args, kw, p, qual=qual, cls=qual.rsplit(".", 1)[0])
+    if k == "handler-method":
+        key, selfv = d
+        ex.trace["handlers"].add(key)
+        return ex.handlers[key](ex, p, [selfv] + args, kw, node)
     if k in ("lambda", "closure"):
         fnode, cenv, fmod = d
         env = symex.bind_arguments(ex, fmod, fnode, args, kw, p, closure_env=cenv)
@@ -170,14 +174,14 @@ def apply(ex, f: V, args, kw, p, node):
             res = sub.ev(fnode.body, symex.Path(p.cond, env, None, p.heap))
             ex.outcomes += [o for o in sub.outcomes]
             ex.side += sub.side
-            return [(symex.Path(q.cond, p.env, p.yields, p.heap), v) for q, v in res]
+            return [(symex.Path(q.cond, p.env, p.yields, q.heap if q.heap is not None else p.heap), v) for q, v in res]
         sub.run_body(fnode, symex.Path(p.cond, env, None, p.heap))
         out = []
         for o in sub.outcomes:
             if o.kind == "return":
-                out.append((symex.Path(o.cond, p.env, p.yields, p.heap), o.val))
+                out.append((symex.Path(o.cond, p.env, p.yields, o.heap if o.heap is not None else p.heap), o.val))
             else:
-                ex.outcomes.append(symex.Outcome("raise", o.cond, exc=o.exc, line=o.line, yields=p.yields, env=p.env))
+                ex.outcomes.append(symex.Outcome("raise", o.cond, exc=o.exc, line=o.line, yields=p.yields, env=p.env, heap=o.heap))
         ex.side += sub.side
         return out
     if k == "opaque":  # uninterpreted callable parameter: d = python callable(ex, p, args, kw, node)
@@ -188,22 +192,36 @@ def apply(ex, f: V, args, kw, p, node):
     raise Unsupported(f"call of Fn<{k}>")
 
 
+_ref_ids = __import__("itertools").count(1)
+
+
 def instantiate(ex, qual, args, kw, p, node):
-    """A plain (non-pydantic) class: a fresh object whose attributes are set by the real __init__."""
-    fm, fnode, fcls, fq = ex.repo.find_method(qual, "__init__")
-    ex.trace["inlined"].add(fq + ".__init__")
-    selfv = Obj(qual, {})
-    env = symex.bind_arguments(ex, fm, fnode, [selfv] + args, kw, p)
-    sub = ex.child(fm)
-    sub.run_body(fnode, symex.Path(p.cond, env, None, p.heap))
+    """A plain (non-pydantic) class: a fresh heap object whose attributes are set by the real __init__."""
+    found = ex.repo.find_method(qual, "__init__")
+    ref = Ref(next(_ref_ids), qual)
+    heap = dict(p.heap or {})
+    heap[ref.ident] = {}
+    p = p.with_heap(heap)
+    if found is None:
+        return [(p, ref)]
+    fm, fnode, fcls, fq = found
     out = []
-    for o in sub.outcomes:
-        if o.kind == "return":
-            out.append((symex.Path(o.cond, p.env, p.yields, p.heap), o.env["self"]))
-        else:
-            ex.outcomes.append(symex.Outcome("raise", o.cond, exc=o.exc, line=o.line, yields=p.yields, env=p.env))
-    ex.side += sub.side
+    for q, _ in ex.call_repo_function(fm, fnode, [ref] + args, kw, p, qual=fq + ".__init__", cls=fq):
+        out.append((q, ref))
     return out
+
+
+def _is_model(ex, qual):
+    """pydantic model (BaseModel somewhere among the bases) vs plain class"""
+    try:
+        for m, c, q in ex.repo.mro(qual):
+            for b in c.bases:
+                bq = ex.repo.qualify(m, b)
+                if bq and bq.endswith("BaseModel"):
+                    return True
+    except Unsupported:
+        pass
+    return False
 
 
 def last_match(ex, p, n, match, node, tag="lm"):
@@ -245,6 +263,13 @@ def call_method(ex, base, attr, args, kw, p, node):
             default = args[1] if len(args) > 1 else kw.get("default", NONE)
             found, w = last_match(ex, p, base.keys.length(), lambda j: eq(key, base.keys.at(j)), node, "dget")
             return [(p, ite(found, base.vals.at(w), default))]
+        if attr == "items":
+            ks, vs = base.keys, base.vals
+            return [(p, Lst(n=ks.length(), at=lambda i: Tup([ks.at(i), vs.at(i)])))]
+        if attr == "keys":
+            return [(p, base.keys)]
+        if attr == "values":
+            return [(p, base.vals)]
         raise Unsupported(f"dict.{attr} on a symbolic dict")
     if isinstance(base, Dct):
         if attr == "get":
@@ -297,6 +322,13 @@ def call_statement(ex, n: ast.Call, p):
 
 
 def set_attribute(ex, target: ast.Attribute, v, p, node):
+    if not (isinstance(target.value, ast.Name) and isinstance(p.env.get(target.value.id), Obj)):
+        out = []
+        for q, base in ex.ev(target.value, p):
+            if not isinstance(base, Ref):
+                raise Unsupported(f"{ex.module.name}:{node.lineno}: attribute assignment on {type(base).__name__}")
+            out.append(q.heap_set(base.ident, target.attr, v))
+        return out
     if isinstance(target.value, ast.Name) and target.value.id in p.env and isinstance(p.env[target.value.id], Obj):
         o = p.env[target.value.id]
         flds = dict(o.fields)
@@ -774,6 +806,20 @@ def np_zeros(ex, p, args, kw, node):
     raise Unsupported("numpy.zeros with a non-scalar shape")
 
 
+def b_super(ex, p, args, kw, node):
+    if args:
+        raise Unsupported("super() with arguments")
+    cls = p.env.get("__class__")
+    selfv = p.env.get("self")
+    if cls is None or selfv is None:
+        raise Unsupported("super() outside a method")
+    return [(p, Fn("super", (selfv, cls.data)))]
+
+
+def b_noop(ex, p, args, kw, node):
+    return [(p, NONE)]
+
+
 def b_set(ex, p, args, kw, node):
     if not args:
         return [(p, SetV([]))]
@@ -799,7 +845,7 @@ def _cquant(which):
         else:
             lo, hi = bounds[0].t, bounds[1].t
         i = fresh_int("k")
-        res = apply(ex, lam, [Num(i)], {}, symex.Path(p.cond + [i >= lo, i < hi], p.env), node)
+        res = apply(ex, lam, [Num(i)], {}, symex.Path(p.cond + [i >= lo, i < hi], p.env, None, p.heap), node)
         # merge forked evaluation of the body
         base = len(p.cond) + 2
         disj = []
@@ -822,6 +868,6 @@ BUILTINS = {
     "len": b_len, "min": _minmax("min"), "max": _minmax("max"), "abs": b_abs, "int": b_int, "float": b_float,
     "bool": b_bool, "isinstance": b_isinstance, "any": _quant("any"), "all": _quant("all"), "list": b_list,
     "tuple": b_tuple, "dict": b_dict, "range": b_range, "enumerate": b_enumerate, "zip": b_zip, "sum": b_sum,
-    "next": b_next, "hasattr": b_hasattr, "getattr": b_getattr, "type": b_type, "hash": b_hash, "id": b_id, "set": b_set, "iter": b_list,
+    "next": b_next, "hasattr": b_hasattr, "getattr": b_getattr, "type": b_type, "hash": b_hash, "id": b_id, "super": b_super, "noop": b_noop, "set": b_set, "iter": b_list,
     "implies": b_implies, "forall": _cquant("forall"), "exists": _cquant("exists"), "distinct": b_distinct,
 }
